@@ -51,7 +51,8 @@ def mutate_lines(g, lines):
         if kind == "dup":
             out.insert(i + 1, ln)
             hdr = [(j + 1 if j > i else j, s) for j, s in hdr]
-        elif kind == "blank" and "." not in rest:
+        elif kind == "blank" and "." not in rest and "," not in rest and not any(ch.isdigit() for ch in rest.split(":")[0]):
+            # blank mnemonics only on lines that cannot acquire a further period when written back (no numbers: 5 -> 5.0)
             out[i] = " ." + rest
         elif kind == "unit":
             u = g.choice(ODD_UNITS)
@@ -122,7 +123,22 @@ class C11(Prop):
                 return True
         return False
 
-    predicates = {"las3_input": pred_las3, "quoted_text_cells": pred_quoted}
+    def pred_empty_null(sc, v, params):
+        import random
+        import re
+        src = sc["src"]
+        if src["kind"] == "corpus":
+            try:
+                lines = corpus_bytes(src["file"]).decode("latin-1").replace("\r\n", "\n").split("\n")
+            except Exception:
+                return False
+        else:
+            lines = list(src.get("lines", []))
+        if src.get("mutate") is not None:
+            lines = mutate_lines(random.Random(src["mutate"]), lines)
+        return any(re.match(r"^\s*NULL\s*\.\S*\s*:", ln, re.I) for ln in lines)
+
+    predicates = {"las3_input": pred_las3, "quoted_text_cells": pred_quoted, "empty_null_value": pred_empty_null}
     quick = {"runs": 1500, "wall": 45}
     thorough = {"runs": 100000, "wall": 900}
 
@@ -139,6 +155,16 @@ class C11(Prop):
                 for sec in doc["sections"]:
                     if sec["kind"] == "C" and len(sec["items"]) > 1:
                         sec["items"][g.randrange(len(sec["items"]))][1] = g.choice(ODD_UNITS[:2] + ["M", "US/F"])
+            if g.random() < 0.45:
+                # header values at the edges of float formatting, each in turn the widest field of its section
+                xv = g.choice(["0.00002", "2e-05", "1.5e+17", "-3.25E-7", "123456789012345678", "0.000000001", "1e16", "6.02E23"])
+                for sec in doc["sections"]:
+                    if sec["kind"] == g.choice(["P", "W", "P"]):
+                        if g.random() < 0.6:
+                            for it in sec["items"]:
+                                if it[0] not in ("STRT", "STOP", "STEP", "NULL"):
+                                    it[2], it[3] = g.choice(["", "x", "12"]), g.choice(["", "d"])
+                        sec["items"].insert(g.randint(0, len(sec["items"])), ["CMPR", g.choice(["1/KPA", "", "M"]), xv, g.choice(["COMPRESSIBILITY", "", "c"])])
             src = {"kind": "lines", "lines": docmodel.render_doc(doc), "mutate": g.randrange(1 << 30) if g.random() < 0.5 else None}
         k = g.randint(2, 5 if tier == "thorough" else 3)
         cycles = []
